@@ -4026,10 +4026,12 @@ func (data *Data) checkDDLConflict(e *proto2.MigrateEventInfo) error {
 		return errno.NewError(errno.DatabaseIsBeingDelete)
 	}
 	for rpName := range dbi.RetentionPolicies {
-		rpi := dbi.RetentionPolicies[rpName]
-		if rpi.MarkDeleted {
+		if dbi.RetentionPolicies[rpName].MarkDeleted {
 			return errno.NewError(errno.RpIsBeingDelete)
 		}
+	}
+	for rpName := range dbi.RetentionPolicies {
+		rpi := dbi.RetentionPolicies[rpName]
 		for mstIdx := range rpi.Measurements {
 			if rpi.Measurements[mstIdx].MarkDeleted {
 				return errno.NewError(errno.MstIsBeingDelete)
